@@ -57,10 +57,10 @@ func (h *holders) release(e int, write bool) {
 func starving(s *simrt.Sim) {
 	m := syncutils.NewStarvingMutex()
 	h := newHolders()
-	nthreads := 2 + s.Choose(3)
+	nthreads := 2 + s.Choose(simrt.Bound(3, 5))
 	for i := 0; i < nthreads; i++ {
 		name := fmt.Sprintf("thread%d", i)
-		nops := 1 + s.Choose(3)
+		nops := 1 + s.Choose(simrt.Bound(3, 4))
 		ops := make([]bool, nops)
 		hold := make([]int, nops)
 		for j := range ops {
@@ -107,7 +107,7 @@ func dag(s *simrt.Sim) {
 	m := syncutils.NewDAGMutex[int]()
 	h := newHolders()
 	nent := 1 + s.Choose(3)
-	nthreads := 2 + s.Choose(3)
+	nthreads := 2 + s.Choose(simrt.Bound(3, 5))
 	for i := 0; i < nthreads; i++ {
 		name := fmt.Sprintf("thread%d", i)
 		nseg := 1 + s.Choose(2)
@@ -454,8 +454,23 @@ func stackWaits(s *simrt.Sim) {
 			w.done = true
 		})
 	}
+	// a signaller that turns the PopOrWait wait condition off and signals the waiters while they are arriving
+	signalled := false
+	if s.Choose(2) == 1 {
+		d := s.Choose(6)
+		s.Go("signaller", func() {
+			for i := 0; i < d; i++ {
+				simrt.Yield()
+			}
+			stop = true
+			st.SignalShutdown()
+			signalled = true
+			s.Logf("wait condition turned off, SignalShutdown returned")
+		})
+	}
 	s.Quiesce()
-	// liveness at quiescence: a waiter whose condition holds now must have returned (PopOrWait: a non-empty stack)
+	// liveness at quiescence: a waiter whose condition holds now must have returned (PopOrWait: a non-empty stack, or
+	// a wait condition that was turned off and signalled)
 	size1 := st.Size()
 	for i, w := range ws {
 		if w.done {
@@ -470,7 +485,7 @@ func stackWaits(s *simrt.Sim) {
 		case 2:
 			sat = size1 > w.thr
 		case 3:
-			sat = size1 > 0
+			sat = size1 > 0 || signalled
 		}
 		if sat {
 			s.Fail("wait-liveness", fmt.Sprintf("stack-kind%d", w.kind), "waiter%d kind=%d thr=%d still blocked at quiescence although size=%d satisfies it", i, w.kind, w.thr, size1)
